@@ -52,7 +52,8 @@ func (t MT) equal(o MT) bool {
 	if strings.Join(t.Atoms, ",") != strings.Join(o.Atoms, ",") {
 		return false
 	}
-	if len(t.Atoms) == 1 && t.Atoms[0] == "Array" && t.ElemSet && o.ElemSet {
+	if len(t.Atoms) == 1 && t.Atoms[0] == "Array" && t.ElemSet && o.ElemSet && len(t.Elem) > 0 && len(o.Elem) > 0 {
+		// (no claim about the element type of an array nothing was put in)
 		return strings.Join(t.Elem, ",") == strings.Join(o.Elem, ",")
 	}
 	return true
@@ -151,6 +152,7 @@ func literalOfClass(r *RNG, cl string) (string, MT) {
 type tVar struct {
 	name string
 	ty   MT
+	keys map[string]MT // for a hash literal variable: value type per literal key text
 }
 
 // paramAccepts: does the declared parameter type accept a value of class cl?
@@ -425,7 +427,157 @@ func genTypedProgram(r *RNG, model *CfgModel, userClasses []*GClass, n int) []*t
 		add(&tStmt{Text: "dbtp " + last.name, Kind: "probe", Want: &w, RetKind: "literal"})
 	}
 	tainted := false
+	scalarClasses := []string{"Integer", "String", "Float", "Symbol", "NilClass", "Bool"}
+	isScalar := func(t MT) bool {
+		if t.Unknown || len(t.Atoms) == 0 {
+			return false
+		}
+		for _, a := range t.Atoms {
+			if !contains(scalarClasses, a) {
+				return false
+			}
+		}
+		return true
+	}
+	// a scalar value: a literal or a known scalar/union variable
+	scalarValue := func() (string, MT) {
+		var cands []*tVar
+		for _, v := range vars {
+			if isScalar(v.ty) {
+				cands = append(cands, v)
+			}
+		}
+		if len(cands) > 0 && r.Chance(1, 3) {
+			v := Pick(r, cands)
+			return v.name, v.ty
+		}
+		return literalOfClass(r, Pick(r, scalarClasses))
+	}
+	pickVar := func(ok func(v *tVar) bool) *tVar {
+		var cands []*tVar
+		for _, v := range vars {
+			if !v.ty.Unknown && ok(v) {
+				cands = append(cands, v)
+			}
+		}
+		if len(cands) == 0 {
+			return nil
+		}
+		return Pick(r, cands)
+	}
+	isArr := func(v *tVar) bool { return len(v.ty.Atoms) == 1 && v.ty.Atoms[0] == "Array" && v.ty.ElemSet }
+	isHash := func(v *tVar) bool { return v.keys != nil && len(v.ty.Atoms) == 1 && v.ty.Atoms[0] == "Hash" }
+	probe := func(text string, want MT, kind string) {
+		w := want
+		add(&tStmt{Text: "dbtp " + text, Kind: "probe", Want: &w, RetKind: kind, Tainted: tainted})
+	}
+	collOp := func() {
+		switch r.Intn(7) {
+		case 0: // array literal
+			var texts, atoms []string
+			ne := 1 + r.Intn(3)
+			if r.Chance(1, 8) {
+				ne = 0
+			}
+			for e := 0; e < ne; e++ {
+				l, t := scalarValue()
+				texts = append(texts, l)
+				atoms = append(atoms, t.Atoms...)
+			}
+			v := newVar(mtArray(atoms...))
+			add(&tStmt{Text: v.name + " = [" + strings.Join(texts, ", ") + "]", Kind: "coll", Feature: "array-literal", Tainted: tainted})
+			if ne > 0 {
+				probe(v.name, v.ty, "array-literal")
+			}
+		case 1: // indexing
+			a := pickVar(func(v *tVar) bool { return isArr(v) && len(v.ty.Elem) > 0 })
+			if a == nil {
+				return
+			}
+			v := newVar(mt(a.ty.Elem...))
+			add(&tStmt{Text: fmt.Sprintf("%s = %s[%d]", v.name, a.name, r.Intn(3)), Kind: "coll", Feature: "index", Tainted: tainted})
+			probe(v.name, v.ty, "index")
+		case 2, 3: // growth
+			a := pickVar(isArr)
+			if a == nil {
+				return
+			}
+			l, t := scalarValue()
+			a.ty = mtArray(append(append([]string{}, a.ty.Elem...), t.Atoms...)...)
+			text := a.name + ".push(" + l + ")"
+			if r.Bool() {
+				text = a.name + " << " + l
+			}
+			add(&tStmt{Text: text, Kind: "coll", Feature: "growth", Tainted: tainted})
+			probe(a.name, a.ty, "growth")
+		case 4: // hash literal
+			sym := r.Bool()
+			keys := map[string]MT{}
+			var texts, order []string
+			for _, k := range []string{"a", "b", "c"}[:1+r.Intn(3)] {
+				l, t := scalarValue()
+				kt := ":" + k
+				if sym {
+					texts = append(texts, k+": "+l)
+				} else {
+					kt = "\"" + k + "\""
+					texts = append(texts, kt+" => "+l)
+				}
+				keys[kt] = t
+				order = append(order, kt)
+			}
+			v := newVar(mt("Hash"))
+			v.keys = keys
+			add(&tStmt{Text: v.name + " = {" + strings.Join(texts, ", ") + "}", Kind: "coll", Feature: "hash-literal", Tainted: tainted})
+			k := Pick(r, order)
+			probe(v.name+"["+k+"]", keys[k], "hash-key")
+		case 5: // hash store
+			h := pickVar(isHash)
+			if h == nil {
+				return
+			}
+			l, t := scalarValue()
+			var kt string
+			for k := range h.keys {
+				kt = k
+			}
+			nk := Pick(r, []string{"a", "b", "c", "d", "e"})
+			if strings.HasPrefix(kt, ":") {
+				kt = ":" + nk
+			} else {
+				kt = "\"" + nk + "\""
+			}
+			h.keys[kt] = t
+			add(&tStmt{Text: h.name + "[" + kt + "] = " + l, Kind: "coll", Feature: "hash-store", Tainted: tainted})
+			probe(h.name+"["+kt+"]", t, "hash-store")
+		default: // hash lookup
+			h := pickVar(isHash)
+			if h == nil {
+				return
+			}
+			ks := make([]string, 0, len(h.keys))
+			for k := range h.keys {
+				ks = append(ks, k)
+			}
+			sort.Strings(ks)
+			k := Pick(r, ks)
+			probe(h.name+"["+k+"]", h.keys[k], "hash-key")
+		}
+	}
 	for i := 0; i < n; i++ {
+		if r.Chance(1, 5) {
+			collOp()
+			continue
+		}
+		if r.Chance(1, 9) {
+			// reassignment: the variable has the type of its most recent assignment
+			v := Pick(r, vars)
+			l, t := valueOf(Pick(r, classes))
+			v.ty, v.keys = t, nil
+			add(&tStmt{Text: v.name + " = " + l, Kind: "assign-literal", Tainted: tainted})
+			probe(v.name, t, "reassign")
+			continue
+		}
 		recv := Pick(r, vars)
 		if recv.ty.Unknown {
 			continue
@@ -554,6 +706,26 @@ func genTypedProgram(r *RNG, model *CfgModel, userClasses []*GClass, n int) []*t
 		if invalidate {
 			recv.ty = MT{Unknown: true}
 		}
+		if r.Chance(1, 4) {
+			// the call nested in a conditional, loop or block body; its value is not kept
+			w := Pick(r, [][2][]string{
+				{{"if flag"}, {"end"}}, {{"unless flag"}, {"end"}}, {{"while flag"}, {"end"}}, {{"[1].each do |q|"}, {"end"}},
+				{{"if flag", "else"}, {"end"}}, {{"if flag", "  unless flag"}, {"  end", "end"}}, {{"[1].each { |q|"}, {"}"}},
+				{{"if flag", "  flag = true", "elsif flag"}, {"end"}},
+			})
+			for _, l := range w[0] {
+				add(&tStmt{Text: l, Kind: "open"})
+			}
+			add(&tStmt{Text: "    " + call, Kind: "call", Verdict: j.verdict, Reason: j.reason, Feature: "nested:" + feature, Tainted: tainted})
+			for _, l := range w[1] {
+				add(&tStmt{Text: l, Kind: "open"})
+			}
+			if j.verdict == "fail" {
+				tainted = true
+			}
+			vars = vars[:len(vars)-1] // the result variable was not created
+			continue
+		}
 		st := &tStmt{Text: res.name + " = " + call, Kind: "call", Verdict: j.verdict, Reason: j.reason, Feature: feature, Tainted: tainted}
 		add(st)
 		switch j.verdict {
@@ -646,6 +818,13 @@ func judgeTyped(c *CheckCtx, rn Runner, tc *typedCase, prop string) *Violation {
 			if len(byRow[row]) > 0 {
 				return &Violation{Sig: "false-alarm:" + s.Feature + ":" + msgTemplate(byRow[row][0].Msg), Kind: "typed", Case: mustJSON(tc),
 					What:     fmt.Sprintf("row %d `%s` is certainly accepted by the configuration but ti reports: %s", row, s.Text, byRow[row][0].Msg),
+					Observed: clip(out, 2500)}
+			}
+		case prop == "C08" && s.Kind == "coll" && row < firstFail:
+			c.Event("collection_statements_judged", 1)
+			if len(byRow[row]) > 0 {
+				return &Violation{Sig: "false-alarm:" + s.Feature + ":" + msgTemplate(byRow[row][0].Msg), Kind: "typed", Case: mustJSON(tc),
+					What:     fmt.Sprintf("row %d `%s` is a literal/index/growth statement over known values but ti reports: %s", row, s.Text, byRow[row][0].Msg),
 					Observed: clip(out, 2500)}
 			}
 		case prop == "C09" && s.Kind == "probe" && s.Want != nil && row < firstFail:
